@@ -298,6 +298,7 @@ def run(c):
                   "integer measure values below 2^39",
                   "DuckDB 1.3.2 (HASH, HUGEINT arithmetic, joins) as oracle; DOUBLE / DECIMAL measures are only exercised on the implementation (witness of C02-K3), not modelled"]
     regen_symagg(c)
+    lib.regen_cte(c)
     c.build_props()
     n = 300 if c.tier == "quick" else 5000
     cases = []
